@@ -171,6 +171,7 @@ func (e *Envoy) Close() { _ = e.conn.Close() }
 
 // EnvoyResult is the canonical view of a CheckResponse.
 type EnvoyResult struct {
+	Code    int  // google.rpc status code of the CheckResponse (0 = OK)
 	OK      bool
 	Status  int // denied http status (0 if OK or unset)
 	Headers [][2]string
@@ -211,8 +212,11 @@ func (e *Envoy) Check(method, scheme, host, pathAndQuery string, hdrs map[string
 		}
 		sort.Slice(res.Headers, func(i, j int) bool { return res.Headers[i][0]+"\x00"+res.Headers[i][1] < res.Headers[j][0]+"\x00"+res.Headers[j][1] })
 	}
-	if ok := cr.GetOkResponse(); ok != nil && cr.GetStatus().GetCode() == 0 {
-		res.OK = true
+	// Envoy's ext_authz filter lets a request pass if and only if the status of the CheckResponse is OK, whatever
+	// http_response carries: that is the positive answer of this entry point.
+	res.OK = cr.GetStatus().GetCode() == 0
+	res.Code = int(cr.GetStatus().GetCode())
+	if ok := cr.GetOkResponse(); ok != nil {
 		collect(ok.GetHeaders())
 	} else {
 		d := cr.GetDeniedResponse()
